@@ -455,6 +455,21 @@ def length_formula(facts, R):
         n += 1
         R.check(ok, "length-formula", b.path, "length = 48 + query_length + body_length (same header)",
                 "%s.length := %s" % (base, " + ".join(names)), w["span"], "%s.length = %s" % (base, " + ".join(names)))
+    # ordering: a function that also stores query_length / body_length must do so before computing length
+    lens = [w for w in field_writes(facts, "header::Header", "length", include_borrows=False) if w["kind"] == "store" and w["body"].path != "header::Header::decode"]
+    for fld in ("query_length", "body_length"):
+        for q in field_writes(facts, "header::Header", fld, include_borrows=False):
+            if q["kind"] != "store":
+                continue
+            for l in lens:
+                if l["body"] is not q["body"]:
+                    continue
+                b = l["body"]
+                before = (b.dominates(q["bb"], l["bb"]) and (q["bb"] != l["bb"] or q["idx"] < l["idx"]))
+                after = l["bb"] in b.reachable((q["bb"],)) if q["bb"] != l["bb"] else q["idx"] < l["idx"]
+                stale = (q["bb"] in b.reachable(b.succs(l["bb"]))) or (q["bb"] == l["bb"] and q["idx"] > l["idx"])
+                R.check(before and not stale, "length-formula", b.path, "%s stored before length is computed" % fld,
+                        "header.length is computed from a stale %s (the store to %s comes after it)" % (fld, fld), l["span"], "ordered")
     R.floor("length-formula", n, 5, "stores to Header.length")
     # query_length / body_length stores
     for fld, what in (("query_length", "query"), ("body_length", "body")):
